@@ -2,6 +2,7 @@ package props
 
 import (
 	"encoding/json"
+	"math/big"
 	"strings"
 	"testing"
 
@@ -289,6 +290,54 @@ func genC01base(t *rapid.T) C01Case {
 			c.Y = fresh(h.GenFinite(t, "ld.y", 60))
 			c.Y.E = int64(rapid.IntRange(-50, 50).Draw(t, "ld.ye"))
 			c.P = uint(rapid.IntRange(1, 80).Draw(t, "ld.p"))
+			if rapid.Bool().Draw(t, "ld.exact") {
+				// the leading part an exact multiple of the divisor, then zeros with one stray digit somewhere in a tail
+				// of twenty thousand digits, the mantissa itself zero-padded below (precision beyond the digits): the
+				// quotient is exact but for a digit that is neither at the top nor at the bottom of what is not needed
+				yv := c.Y.Val()
+				q := model.MkFinite(false, h.GenRoundDigits(t, "ld.q", int(c.P)), 0)
+				head := model.MulX(q, model.MkFinite(false, yv.Digits, 0)).Val.Digits
+				tail := rapid.IntRange(19500, 24000).Draw(t, "ld.tail")
+				pos := rapid.IntRange(0, tail-1).Draw(t, "ld.pos")
+				switch rapid.IntRange(0, 3).Draw(t, "ld.poscls") {
+				case 0:
+					pos = rapid.IntRange(0, 60).Draw(t, "ld.postop")
+				case 1:
+					pos = tail - 1 - rapid.IntRange(0, 1500).Draw(t, "ld.posbot")
+				}
+				d := head + strings.Repeat("0", pos) + string(byte('1'+rapid.IntRange(0, 8).Draw(t, "ld.dig")))
+				c.X = h.Spec{F: "f", D: d, E: c.X.E, Neg: c.X.Neg, M: c.X.M, P: uint(len(head) + tail), Hist: rapid.SampledFrom([]string{"padfull", "padfull", ""}).Draw(t, "ld.hist")}
+			}
+			return c
+		}
+		if rapid.IntRange(0, 11).Draw(t, "terminating") == 0 {
+			// short operands, long terminating quotient: x / (2^a 5^b) has about 0.7a (0.3b) more digits than x; the
+			// receiver holds all of them (Exact), exactly all of them, or a few less
+			a, b := 0, 0
+			if rapid.Bool().Draw(t, "tm.two") {
+				a = rapid.IntRange(1, lim+lim/3).Draw(t, "tm.a")
+			} else {
+				b = rapid.IntRange(1, 3*lim).Draw(t, "tm.b")
+			}
+			if rapid.IntRange(0, 3).Draw(t, "tm.both") == 0 {
+				a, b = rapid.IntRange(0, 200).Draw(t, "tm.a2"), rapid.IntRange(0, 200).Draw(t, "tm.b2")
+			}
+			yi := new(big.Int).Exp(big.NewInt(2), big.NewInt(int64(a)), nil)
+			yi.Mul(yi, new(big.Int).Exp(big.NewInt(5), big.NewInt(int64(b)), nil))
+			y := model.FromInt(yi, int64(rapid.IntRange(-30, 30).Draw(t, "tm.ye")))
+			y.Neg = rapid.Bool().Draw(t, "tm.yneg")
+			x := model.MkFinite(rapid.Bool().Draw(t, "tm.xneg"), h.GenDigits(t, "tm.x", 40), int64(rapid.IntRange(-30, 30).Draw(t, "tm.xe")))
+			full := len(model.QuoX(x, y, uint64(4*lim+200)).Digits) // the whole expansion (it terminates well before that)
+			p := full + rapid.SampledFrom([]int{0, 0, 1, 5, 40, -1, -2, -7}).Draw(t, "tm.p")
+			if p < 1 {
+				p = 1
+			}
+			if p > lim {
+				p = lim
+			}
+			c.P = uint(p)
+			c.X = h.SpecOf(x, h.GenPrecFor(t, "tm.xp", len(x.Digits)), h.GenMode(t, "xm"))
+			c.Y = h.SpecOf(y, h.GenPrecFor(t, "tm.yp", len(y.Digits)), h.GenMode(t, "ym"))
 			return c
 		}
 		switch {
@@ -508,6 +557,10 @@ func checkC01(c C01Case, o *h.Obs) *h.Fail {
 		o.Label(c.Op)
 		return c01PeriodicQuotients()
 	}
+	if c.Op == "grid:carry-cases" {
+		o.Label(c.Op)
+		return c01CarryCases()
+	}
 	if c.P == 0 && c.Op != "setprec" {
 		return h.Failf("bad-case", "precision 0")
 	}
@@ -555,7 +608,7 @@ func checkC01(c C01Case, o *h.Obs) *h.Fail {
 	return nil
 }
 
-const ruleC01 = "rapid-generated (op, operands, receiver precision, mode) for add/sub/mul/quo/set/setprec/neg/abs: operands from word-patterned digit generators (0, 10^19-1, 5*10^18, 10^k, 10^k-1 words, uniform filler), result-directed constructions (chosen exact sum split into addends; x=q*y(+r) with q carrying a tie / all-nines / just-above / just-below pattern at the precision), near-total cancellation, exponents at both ends of the int32 range, zero addends, an addend 4096 .. 140000 digits below the other (a few per run: 2^20 .. 2^27 digits below), dividends of 19500-24000 digits against short divisors, receivers aliased to an operand, about one case in 4000 with operands or precisions of 32768..131072 digits; oracle = math/big exact result rounded once by the reference Round (range rule included), compared on sign, digits, exponent read back through BitsExp; operands that are not the receiver must be unchanged; in a third of the cases the receiver is read again after a fixed batch of unrelated divisions, products and a square root on private variables (pooled scratch buffers cycled) and must not have changed. Non-trivial = the model result is inexact or left the finite range (rounding, overflow, underflow happened); distinct = distinct case encodings. Bounds: exponent gap of sums <= 600 (quick) / 6000 (thorough) digits, Quo precision <= 2000 / 40000, operands <= 2500 / 20000 digits."
+const ruleC01 = "rapid-generated (op, operands, receiver precision, mode) for add/sub/mul/quo/set/setprec/neg/abs: operands from word-patterned digit generators (0, 10^19-1, 5*10^18, 10^k, 10^k-1 words, uniform filler), result-directed constructions (chosen exact sum split into addends; x=q*y(+r) with q carrying a tie / all-nines / just-above / just-below pattern at the precision), short operands with long terminating quotients (divisors 2^a 5^b, a up to 2600, the receiver holding the whole expansion or a few digits less), near-total cancellation, exponents at both ends of the int32 range, zero addends, an addend 4096 .. 140000 digits below the other (a few per run: 2^20 .. 2^27 digits below), dividends of 19500-24000 digits against short divisors (random, or an exact multiple of the divisor followed by zeros and one stray digit anywhere in the tail, the mantissa zero-padded below it), receivers aliased to an operand, about one case in 4000 with operands or precisions of 32768..131072 digits; oracle = math/big exact result rounded once by the reference Round (range rule included), compared on sign, digits, exponent read back through BitsExp; operands that are not the receiver must be unchanged; in a third of the cases the receiver is read again after a fixed batch of unrelated divisions, products and a square root on private variables (pooled scratch buffers cycled) and must not have changed. Non-trivial = the model result is inexact or left the finite range (rounding, overflow, underflow happened); distinct = distinct case encodings. Bounds: exponent gap of sums <= 600 (quick) / 6000 (thorough) digits, Quo precision <= 2000 / 40000, operands <= 2500 / 20000 digits."
 
 var propC01 = &h.Prop[C01Case]{ID: "C01", Rule: ruleC01, Gen: genC01, Check: checkC01, Matchers: map[string]func(C01Case) bool{}}
 
@@ -611,6 +664,52 @@ func c01HugeGapCases() []C01Case {
 	return out
 }
 
+// c01CarryCases: a mantissa of 1.33 million digits (70 000 words), all nines or 1 0...0 1, meeting an addend at its
+// very bottom, so that a carry or borrow runs through the whole mantissa while the receiver keeps 19 or 34 digits.
+// The expected results are known by construction (no big-integer arithmetic on a million digits per case).
+func c01CarryCases() *h.Fail {
+	const K = 1330000
+	nines := h.Spec{F: "f", D: strings.Repeat("9", K), E: 0, P: K}                     // 1 - 10^-K
+	onePlus := h.Spec{F: "f", D: "1" + strings.Repeat("0", K-1) + "1", E: 1, P: K + 1} // 1 + 10^-K
+	unit := func(d string) h.Spec { return h.Spec{F: "f", D: d, E: -K + 1, P: 3} }     // d x 10^-K
+	type tc struct {
+		op      string
+		x, y    h.Spec
+		p       uint
+		m       model.Mode
+		digits  string
+		exp     int64
+		acc     model.Acc
+		comment string
+	}
+	n19 := strings.Repeat("9", 19)
+	cases := []tc{
+		{"add", nines, unit("1"), 34, model.ToNearestEven, "1", 1, model.Exact, "(1-10^-K) + 10^-K = 1"},
+		{"add", unit("1"), nines, 34, model.ToZero, "1", 1, model.Exact, "10^-K + (1-10^-K) = 1"},
+		{"sub", nines, unit("1"), 34, model.ToNearestEven, "1", 1, model.Above, "(1-10^-K) - 10^-K"},
+		{"sub", onePlus, unit("2"), 19, model.ToNearestEven, "1", 1, model.Above, "(1+10^-K) - 2x10^-K = 1-10^-K"},
+		{"sub", onePlus, unit("2"), 19, model.ToZero, n19, 0, model.Below, "(1+10^-K) - 2x10^-K = 1-10^-K"},
+		{"sub", onePlus, unit("1"), 19, model.AwayFromZero, "1", 1, model.Exact, "(1+10^-K) - 10^-K = 1"},
+		{"add", onePlus, unit("3"), 19, model.AwayFromZero, "1000000000000000001", 1, model.Above, "(1+10^-K) + 3x10^-K"},
+	}
+	for _, c := range cases {
+		x, y := c.x.Build(), c.y.Build()
+		z := mkRecv(c.p, uint8(c.m))
+		if c.op == "add" {
+			z.Add(x, y)
+		} else {
+			z.Sub(x, y)
+		}
+		got := h.Read(z)
+		want := model.MkFinite(false, c.digits, c.exp)
+		if got.Malformed != "" || !got.Val().Equal(want) || model.Acc(got.Acc) != c.acc {
+			return h.Failf("carry", "%s with K = %d at precision %d %v: got %v (%v), want %v (%v)", c.comment, K, c.p, c.m, got.Val(), model.Acc(got.Acc), want, c.acc)
+		}
+	}
+	h.AddExtra("C01", "million_digit_carry_cases", len(cases))
+	return nil
+}
+
 func TestC01Grid(t *testing.T) {
 	defer h.WriteStats("C01")
 	n := 0
@@ -626,6 +725,9 @@ func TestC01Grid(t *testing.T) {
 	h.AddExtra("C01", "huge_gap_cases_enumerated", n)
 	if f := c01PeriodicQuotients(); f != nil {
 		h.ReportGridFail(t, "C01", f, []byte(`{"op":"grid:periodic-quotients"}`))
+	}
+	if f := c01CarryCases(); f != nil {
+		h.ReportGridFail(t, "C01", f, []byte(`{"op":"grid:carry-cases"}`))
 	}
 }
 
